@@ -361,7 +361,7 @@ class Element(Node):
         self.childNodes=[]
         self.allowed_children = grammar.allowed_children.get(self.qname)
         prefix = self.get_nsprefix(self.qname[0])
-        self.tagName = prefix + ":" + self.qname[1]
+        self.tagName = self._prefixed(prefix, self.qname[1])
         if text is not None:
             self.addText(text)
         if cdata is not None:
@@ -395,6 +395,12 @@ class Element(Node):
                 if self.getAttrNS(r[0],r[1]) is None:
                     raise AttributeError( "Required attribute missing: %s in <%s>" % (r[1].lower().replace('-',''), self.tagName))
 
+    def _prefixed(self, prefix, localname):
+        """ The qualified name as written in XML: no colon for names in no namespace """
+        if prefix:
+            return prefix + ":" + localname
+        return localname
+
     def get_knownns(self, prefix):
         """ Odfpy maintains a list of known namespaces. In some cases a prefix is used, and
             we need to know which namespace it resolves to.
@@ -409,6 +415,10 @@ class Element(Node):
             and needs to look up or assign the prefix for it.
         """
         if namespace is None: namespace = ""
+        if namespace == "":
+            # a name in no namespace carries no prefix; binding a prefix to the
+            # empty namespace name is not allowed in XML
+            return ""
         prefix = _nsassign(namespace)
         if not namespace in self.namespaces:
             self.namespaces[namespace] = prefix
@@ -559,7 +569,7 @@ class Element(Node):
                 f.write(u' xmlns:' + prefix + u'="'+ _sanitize(str(namespace))+'"')
         for qname in self.attributes.keys():
             prefix = self.get_nsprefix(qname[0])
-            f.write(u' '+_sanitize(str(prefix+u':'+qname[1]))+u'='+_quoteattr(unicode(self.attributes[qname])))
+            f.write(u' '+_sanitize(str(self._prefixed(prefix, qname[1])))+u'='+_quoteattr(unicode(self.attributes[qname])))
         f.write(u'>')
 
     def write_close_tag(self, level, f):
@@ -577,7 +587,7 @@ class Element(Node):
                 f.write(u' xmlns:' + prefix + u'="'+ _sanitize(str(namespace))+u'"')
         for qname in self.attributes.keys():
             prefix = self.get_nsprefix(qname[0])
-            f.write(u' '+_sanitize(unicode(prefix+':'+qname[1]))+u'='+_quoteattr(unicode(self.attributes[qname])))
+            f.write(u' '+_sanitize(unicode(self._prefixed(prefix, qname[1])))+u'='+_quoteattr(unicode(self.attributes[qname])))
         if self.childNodes:
             f.write(u'>')
             for element in self.childNodes:
